@@ -249,7 +249,7 @@ func MonLoop(rep *report.Report, sc loopScenario) {
 		return
 	}
 	maxHead := int64(-1)
-	cursor := int64(0)     // persisted cursor as last observed
+	cursor := int64(0) // persisted cursor as last observed
 	var submittedAfterKill map[int64]bool
 	submitted := map[int64]int{}
 	lastKillCursor := int64(-1)
